@@ -23,7 +23,8 @@ NAMES = ["Oxidation", "Phospho", "Acetyl", "Carbamidomethyl", "Methyl", "Deamida
          "Met->Hse", "U:Ala->Ser", "(2S,3R)-3-hydroxyasparagine", "Xlink:DTSSP[88]", "1'-phospho-L-histidine",
          "DiART6plex116/119", "Myristoyl+Delta:H(-4)", "ICAT-G:2H(8)"]
 FORMULAS = ["Formula:C2H4", "Formula:[13C2]H4", "Formula:C-1H2O", "Formula:[13C2][15N1]H6", "Formula:HPO3",
-            "Formula:C12H20O2", "Formula:[2H3]C", "Formula:C6H10O5"]
+            "Formula:C12H20O2", "Formula:[2H3]C", "Formula:C6H10O5",
+            "Formula:C2[13C1]C3H4", "Formula:[13C2]H3[13C1]O", "Formula:H2[15N]H"]     # an element written in two segments
 GLYCANS = ["Glycan:Hex", "Glycan:HexNAc2Hex", "Glycan:HexNAc2Hex3Fuc", "Glycan:Hex5HexNAc4NeuAc2", "Glycan:dHex",
            "Glycan:HexHex", "Glycan:Hex2HexNAcHex"]      # a name may come twice
 MISC = ["Obs:+17.05685", "Obs:-1.5", "INFO:anything here", "INFO:x", "#g1", "Oxidation#g1", "Oxidation#g1(0.5)",
@@ -32,10 +33,12 @@ MISC = ["Obs:+17.05685", "Obs:-1.5", "INFO:anything here", "INFO:x", "#g1", "Oxi
 ISOTOPES = ["13C", "15N", "18O", "D", "T", "17O", "34S", "2H"]
 STATICS_MASSY = ["[Carbamidomethyl]@C", "[Oxidation]@M", "[+15.995]@M", "[Formula:C2H4]@K,R", "[Acetyl]@N-Term",
                  "[Amidated]@C-Term", "[Phospho]@S,T,Y", "[1]@P", "[Methyl][Oxidation]@E", "[3.5]@N-Term,K",
-                 "[Oxidation]^2@M", "[U:35]@W", "[Glycan:Hex]@N", "[-18.010565]@C-Term,D"]
+                 "[Oxidation]^2@M", "[U:35]@W", "[Glycan:Hex]@N", "[-18.010565]@C-Term,D",
+                 "[Acetyl]@N-term", "[+2.5]@C-term,K", "[Methyl]@n-term"]     # the ProForma 2.0 text writes N-term / C-term
 STATICS = ["[Carbamidomethyl]@C", "[Oxidation]@M", "[+15.995]@M", "[Formula:C2H4]@K,R", "[Acetyl]@N-Term",
            "[Amidated]@C-Term", "[Phospho]@S,T,Y", "[1]@P", "[Methyl][Oxidation]@E", "[3.5]@N-Term,K", "[Oxidation]^2@M",
-           "[Met->Hse]@M", "[(2S,3R)-3-hydroxyasparagine]@N,D", "[Xlink:DTSSP[88]]@K", "[Formula:[13C2]H4]@R"]
+           "[Met->Hse]@M", "[(2S,3R)-3-hydroxyasparagine]@N,D", "[Xlink:DTSSP[88]]@K", "[Formula:[13C2]H4]@R",
+           "[Acetyl]@N-term", "[2.5]@C-term,K"]
 ADDUCTS = ["+H+", "+2Na+,+H+", "+Na+", "+K+", "+2H+", "-H+", "+Ca2+", "+Mg2+", "+Cl-", "+Li+", "+Na+,+K+", "+3H+",
            "+2Na+,-H+", "+e-"]
 
